@@ -765,7 +765,7 @@ theorem stepOk_ok {cfg : Cfg} {ev : Option Ev} {r r' : R} {o : Obs}
     (h2 : ∀ f ∈ r.deferred, held r f = true → f ∉ releasedNow r r' →
             f ∈ o.flags ∧ mentions o.outs f = false)
     (h3 : ∀ f ∈ releasedNow r r', f ∉ o.flags)
-    (h4 : ∀ f ∈ releasedNow r r', exactRelease r'.rib f o.changes = true)
+    (h4 : ∀ f ∈ releasedNow r r', exactRelease (r'.rib.filter (fun e => !r'.invalid.contains e.2.2)) f o.changes = true)
     (h5 : ∀ f ∈ r.deferred, f ∈ r.released → mentions o.outs f = false ∧
             ((ev.map isRd).getD true = true → ∀ c ∈ o.changes, c.fam ≠ f))
     (h6 : ∀ e ∈ o.pending, tracked r' e.1 = true ∧ e.2 ≠ [])
@@ -798,8 +798,8 @@ theorem stepOk_ok {cfg : Cfg} {ev : Option Ev} {r r' : R} {o : Obs}
           simp [hr, a, b]
   have c3 : ((releasedNow r r').any fun f => o.flags.contains f) = false := by
     rw [List.any_eq_false]; intro f hf; simpa using h3 f hf
-  have c4 : ((releasedNow r r').any fun f => !exactRelease r'.rib f o.changes) = false := by
-    rw [List.any_eq_false]; intro f hf; simp [h4 f hf]
+  have c4 : ((releasedNow r r').any fun f => !exactRelease (r'.rib.filter (fun e => !r'.invalid.contains e.2.2)) f o.changes) = false := by
+    rw [List.any_eq_false]; intro f hf; rw [h4 f hf]; simp
   have c5 : (r.deferred.any fun f => r.released.contains f &&
       (mentions o.outs f || ((ev.map isRd).getD true && o.changes.any (·.fam = f)))) = false := by
     rw [List.any_eq_false]
@@ -859,19 +859,31 @@ theorem set_other (t : Tabs) {f g : Fam} (r : Rib) (h : g ≠ f) : (t.set f r) g
 def announce (f : Fam) (paths : List (Nat × Peer)) : List Change :=
   (prefixes paths).map fun n => { fam := f, pfx := n, peers := peersOf n paths, kind := .adv }
 
-theorem endDeferralFamilies_spec (fs : List Fam) (t : Tabs) :
-    (∀ g, ((endDeferralFamilies fs t).1 g).paths = (t g).paths) ∧
-    (∀ g, ((endDeferralFamilies fs t).1 g).deferring = (if g ∈ fs then false else (t g).deferring)) ∧
-    (endDeferralFamilies fs t).2 = fs.flatMap fun f => announce f (t f).paths := by
+theorem endDeferralFamilies_spec (inv : List Peer) (fs : List Fam) (t : Tabs) :
+    (∀ g, ((endDeferralFamilies inv fs t).1 g).paths = (t g).paths) ∧
+    (∀ g, ((endDeferralFamilies inv fs t).1 g).deferring = (if g ∈ fs then false else (t g).deferring)) ∧
+    (endDeferralFamilies inv fs t).2 = (fs.flatMap fun f => announce f (usable inv (t f).paths)) ∧
+    (∀ g, ((endDeferralFamilies inv fs t).1 g).stale = (t g).stale) ∧
+    (∀ g, ((endDeferralFamilies inv fs t).1 g).llgr = (t g).llgr) := by
   induction fs generalizing t with
   | nil => simp [endDeferralFamilies]
   | cons f fs ih =>
-      obtain ⟨i1, i2, i3⟩ := ih (endDeferral t f).1
-      have hp : ∀ g, ((endDeferral t f).1 g).paths = (t g).paths := by
+      obtain ⟨i1, i2, i3, i4, i5⟩ := ih (endDeferral inv t f).1
+      have hp : ∀ g, ((endDeferral inv t f).1 g).paths = (t g).paths := by
         intro g; by_cases h : g = f
         · subst h; simp [endDeferral]
         · simp [endDeferral, set_other _ _ h]
-      refine ⟨fun g => by simp only [endDeferralFamilies]; rw [i1, hp], fun g => ?_, ?_⟩
+      have hs : ∀ g, ((endDeferral inv t f).1 g).stale = (t g).stale := by
+        intro g; by_cases h : g = f
+        · subst h; simp [endDeferral]
+        · simp [endDeferral, set_other _ _ h]
+      have hl : ∀ g, ((endDeferral inv t f).1 g).llgr = (t g).llgr := by
+        intro g; by_cases h : g = f
+        · subst h; simp [endDeferral]
+        · simp [endDeferral, set_other _ _ h]
+      refine ⟨fun g => by simp only [endDeferralFamilies]; rw [i1, hp], fun g => ?_, ?_,
+        fun g => by simp only [endDeferralFamilies]; rw [i4, hs],
+        fun g => by simp only [endDeferralFamilies]; rw [i5, hl]⟩
       · simp only [endDeferralFamilies]; rw [i2]
         by_cases hg : g ∈ fs
         · simp [hg]
@@ -881,22 +893,23 @@ theorem endDeferralFamilies_spec (fs : List Fam) (t : Tabs) :
       · simp only [endDeferralFamilies, i3, List.flatMap_cons, hp]
         rfl
 
-theorem endDeferralFamilies_append (a b : List Fam) (t : Tabs) :
-    endDeferralFamilies (a ++ b) t =
-      ((endDeferralFamilies b (endDeferralFamilies a t).1).1,
-       (endDeferralFamilies a t).2 ++ (endDeferralFamilies b (endDeferralFamilies a t).1).2) := by
+theorem endDeferralFamilies_append (inv : List Peer) (a b : List Fam) (t : Tabs) :
+    endDeferralFamilies inv (a ++ b) t =
+      ((endDeferralFamilies inv b (endDeferralFamilies inv a t).1).1,
+       (endDeferralFamilies inv a t).2 ++ (endDeferralFamilies inv b (endDeferralFamilies inv a t).1).2) := by
   induction a generalizing t with
   | nil => simp [endDeferralFamilies]
   | cons f a ih => simp [endDeferralFamilies, ih]
 
 /-- `process_restarting_outputs` releases exactly `relFams outs`, in that order -/
 theorem applyOuts_spec (s : St) (outs : List ROut) :
-    (applyOuts s outs).1.tabs = (endDeferralFamilies (relFams outs) s.tabs).1 ∧
-    (applyOuts s outs).2 = (endDeferralFamilies (relFams outs) s.tabs).2 ∧
+    (applyOuts s outs).1.tabs = (endDeferralFamilies s.invalid (relFams outs) s.tabs).1 ∧
+    (applyOuts s outs).2 = (endDeferralFamilies s.invalid (relFams outs) s.tabs).2 ∧
     (applyOuts s outs).1.sd = (if (endRemaining outs).isSome then none else s.sd) ∧
     (applyOuts s outs).1.univ = s.univ ∧
     (applyOuts s outs).1.timer =
-      (if startsTimer outs then true else if (endRemaining outs).isSome then false else s.timer) := by
+      (if startsTimer outs then true else if (endRemaining outs).isSome then false else s.timer) ∧
+    (applyOuts s outs).1.invalid = s.invalid ∧ (applyOuts s outs).1.up = s.up := by
   unfold applyOuts relFams
   cases h : endRemaining outs with
   | none => by_cases ht : startsTimer outs = true <;> simp [endDeferralFamilies, ht]
